@@ -190,6 +190,11 @@ func (fx *FnCtx) finish(res *FnResult, t0 time.Time) {
 				fx.unsup["at-call clause "+ac.Tag()+" for "+shortFn(ac.Callee)+" matches no call in the body (contract out of date or call removed)"] = true
 			}
 		}
+		for _, ac := range fx.con.AtSends {
+			if !fx.exercised[ac] {
+				fx.unsup["at-send clause "+ac.Tag()+" for "+ac.Callee+" matches no call in the body (contract out of date or send removed)"] = true
+			}
+		}
 	}
 	res.Unsupported = res.Unsupported[:0]
 	for u := range fx.unsup {
@@ -337,6 +342,12 @@ func (fx *FnCtx) checkPost(st *State, results []*Val) {
 			res = &Val{K: KTuple, T: sig.Results(), Fs: results}
 		}
 		bindResults(env, sig, res)
+		// at-return clauses: like postconditions, but with the locals in scope at this return
+		for _, c := range fx.con.AtReturns {
+			renv := fx.fnEnv(st, st.curPoint)
+			bindResults(renv, sig, res)
+			fx.oblige(st, fx.oname("at-return", strings.Trim(c.Tag(), "[]")), "at-return", c, renv.evalBool(c.E))
+		}
 		// ghost code: updates of ghost variables performed when the function returns
 		for _, gs := range fx.con.GhostSets {
 			gv := fx.eng.CS.GVars[gs.Var]
@@ -577,6 +588,26 @@ func (fx *FnCtx) resolveLocal(st *State, name string, at point) *Val {
 		b = b.Idom()
 		if b != nil {
 			idx = len(b.Instrs)
+		}
+	}
+	return nil
+}
+
+// localType: the Go type of the local variable `name` of the function under verification (from the debug references).
+func (fx *FnCtx) localType(name string) types.Type {
+	for _, b := range fx.fn.Blocks {
+		for _, ins := range b.Instrs {
+			if x, ok := ins.(*ssa.DebugRef); ok {
+				if id, ok := x.Expr.(*ast.Ident); ok && id.Name == name {
+					t := x.X.Type()
+					if x.IsAddr {
+						if pt, ok := t.Underlying().(*types.Pointer); ok {
+							return pt.Elem()
+						}
+					}
+					return t
+				}
+			}
 		}
 	}
 	return nil
